@@ -241,7 +241,8 @@ class StretchyTreeMatcher:
         """
         if case_left and case_right:
             for case_l in case_left:
-                new_map = base_mappings[0].new_merged_map(case_l).new_merged_map(use_previous)
+                # the inherited match first: a placeholder name this pattern uses again is bound anew
+                new_map = base_mappings[0].new_merged_map(use_previous).new_merged_map(case_l)
                 for case_r in case_right:
                     both = new_map.new_merged_map(case_r)
                     if not both.has_conflicts():
